@@ -34,6 +34,7 @@ static void one_case(const cons *C, size_t mlen, size_t adlen, int pat)
     vf_pat(nonce, C->nlen, pat, 202 + mlen); vf_pat(m, mlen, (pat + 1) % PAT_N, 203); vf_pat(ad, adlen, (pat + 2) % PAT_N, 204);
     C->ref(c_ref, tag_ref, m, mlen, adp, adlen, nonce, kc.k);
     n_eval++; n_nontriv++;
+    if (mlen == 17 && adlen <= 16) VF_SAMPLE_CASE(5, "%s mlen=%zu adlen=%zu pattern %s: key=%s nonce=%s -> reference ciphertext=%s tag=%s; all %d call forms compared", C->name, mlen, adlen, vf_patname[pat], vf_hex(kc.k, C->klen), vf_hex(nonce, C->nlen), vf_hex(c_ref, mlen), vf_hex(tag_ref, T), 2 + C->nx);
     /* combined */
     memset(out, 0xA5, mlen + 128); ol = 12345;
     r = C->enc(out + 16, &ol, m, mlen, adp, adlen, nonce, &kc);
